@@ -52,8 +52,8 @@ WORDS = ["starting", "worker", "done", "request", "failed to open", "retry", "ca
          "connected", "value is", "état", "naïve café", "日本語", "ok", "timeout after"]
 
 # shapes: name -> (structured_ok, unstructured_ok)
-UNSTRUCT_SHAPES = ["bare", "qual", "fmt", "target", "kv", "multi", "qual_fmt_multi", "esc"]
-STRUCT_SHAPES = ["bare", "qual", "fmt", "kv", "kv2", "multi", "esc"]
+UNSTRUCT_SHAPES = ["bare", "qual", "fmt", "target", "kv", "multi", "qual_fmt_multi", "esc", "kv_short", "kv_mixed"]
+STRUCT_SHAPES = ["bare", "qual", "fmt", "kv", "kv2", "multi", "esc", "kv_short", "kv_short2", "kv_mixed", "kv_mixed2"]
 
 
 def render_stmt(shape, marker, macro, rid, structured, words, indent="    "):
@@ -76,6 +76,14 @@ def render_stmt(shape, marker, macro, rid, structured, words, indent="    "):
         kvs = "attempt = 3"
     if shape == "kv2":
         kvs = "user = \"a;b,c\", attempt:? = 3"
+    if shape == "kv_short":
+        kvs = "state"
+    if shape == "kv_short2":
+        kvs = "state, count:?"
+    if shape == "kv_mixed":
+        kvs = "state, attempt = 3"
+    if shape == "kv_mixed2":
+        kvs = "attempt = 3, state:%"
     if structured:
         if rid is not None:
             kvs = ("ref = %d, %s" % (rid, kvs)) if kvs else ("ref = %d" % rid)
